@@ -9,7 +9,7 @@ import time
 
 from .common import SPEC, scratch
 
-MODULES = ["IdxProofs", "HelpersProofs", "DWT1Proofs", "SWTProofs", "DTCWT1Proofs", "ScatProofs"]
+MODULES = ["IdxProofs", "HelpersProofs", "DWT1Proofs", "SWTProofs", "DTCWT1Proofs", "ScatProofs", "TapeProofs", "SessionProofs"]
 
 
 def prove(module="IdxProofs", stretch=1, timeout=1500, mutate=None):
@@ -48,6 +48,8 @@ def prove(module="IdxProofs", stretch=1, timeout=1500, mutate=None):
 
 
 THEOREMS_D = ["PadAmounts", "AnalysisLenAll", "AnalysisSrcAll", "SynthesisAll", "RoundTripLen", "ModEqZero", "Half"]
+THEOREMS_P = ["TapeOwnInductive", "ResultOwnWithoutSharing"]
+THEOREMS_N = ["NoMemo", "AppendKeeps", "SessionSafe", "SessionNoForeignWrite"]
 THEOREMS_C = ["DivUnique", "Size1All", "Ext8All", "ChanViewsAll"]
 THEOREMS_S = ["SwtPads", "SwtFullResolution", "SwtSrcAll", "ModAdd", "SwtShiftEquivariant"]
 THEOREMS_T = ["ColdCountAll", "ColdPosAll", "ColdSrcAll", "IfiltPosAll"]
@@ -62,7 +64,8 @@ def attach(rep, module="IdxProofs"):
     if not r["ok"]:
         r = prove(module, stretch=4)
     th = {"IdxProofs": THEOREMS, "HelpersProofs": THEOREMS_H, "DWT1Proofs": THEOREMS_D, "SWTProofs": THEOREMS_S,
-          "DTCWT1Proofs": THEOREMS_T, "ScatProofs": THEOREMS_C}[module]
+          "DTCWT1Proofs": THEOREMS_T, "ScatProofs": THEOREMS_C, "TapeProofs": THEOREMS_P,
+          "SessionProofs": THEOREMS_N}[module]
     rep.extra.setdefault("tlaps", []).append(dict(r, theorems=th))
     if r["ok"]:
         rep.count("tlaps_obligations_proved", r["proved"])
